@@ -596,7 +596,7 @@ func sectionC(c *vf.Ctx, a *alg, path string) {
 					return "", true, "constructor error in history"
 				}
 				clobber(pk) // every later Reset must restore the state keyed with the ORIGINAL key
-				pos := 0 // bytes written since the last Reset; data always comes from stream[pos:]
+				pos := 0    // bytes written since the last Reset; data always comes from stream[pos:]
 				sums := 0
 				for _, o := range hist {
 					switch o.kind {
@@ -966,6 +966,7 @@ func sectionE(c *vf.Ctx, a *alg) {
 			if !bytes.Equal(g.Sum(nil), want) {
 				c.Violation("blake2b: crypto.Hash registration computes wrong digest", x.size)
 			}
+			registryHistory(c, "blake2b", x.id, func(m []byte) []byte { return blake2ref.SumB(x.size, nil, m) })
 		}
 		return
 	}
@@ -989,6 +990,7 @@ func sectionE(c *vf.Ctx, a *alg) {
 		if !bytes.Equal(g.Sum(nil), blake2ref.SumS(32, nil, msg)) {
 			c.Violation("blake2s: crypto.Hash registration computes wrong digest", nil)
 		}
+		registryHistory(c, "blake2s", crypto.BLAKE2s_256, func(m []byte) []byte { return blake2ref.SumS(32, nil, m) })
 	} else {
 		c.Violation("blake2s: crypto.Hash not registered", nil)
 	}
@@ -1011,5 +1013,32 @@ func pfor(c *vf.Ctx, section string, n int, f func(i int)) {
 func recoverRun(stop *bool, mis *string) {
 	if r := recover(); r != nil {
 		*stop, *mis = true, fmt.Sprintf("unexpected panic | %v", r)
+	}
+}
+
+// registryHistory: hashes obtained through the crypto.Hash registry are independent objects
+// that start empty - three live ones are fed different messages in interleaved pieces, and one
+// obtained after the others were used must start from the initial state.
+func registryHistory(c *vf.Ctx, name string, id crypto.Hash, ref func([]byte) []byte) {
+	msgs := [][]byte{c.Bytes("reg-a", 0, 300), c.Bytes("reg-b", 1, 129), c.Bytes("reg-c", 2, 64)}
+	hs := []hash.Hash{id.New(), id.New(), id.New()}
+	for step := 0; step < 3; step++ {
+		for i, h := range hs {
+			m := msgs[i]
+			lo, hi := step*len(m)/3, (step+1)*len(m)/3
+			h.Write(m[lo:hi])
+		}
+	}
+	c.Eval(4)
+	for i, h := range hs {
+		if !bytes.Equal(h.Sum(nil), ref(msgs[i])) {
+			c.Violation(name+": hashes handed out by the crypto.Hash registry are not independent objects (interleaved use of three of them)", map[string]any{"hash": fmt.Sprint(id), "object": i})
+			return
+		}
+	}
+	late := id.New()
+	late.Write(msgs[1])
+	if !bytes.Equal(late.Sum(nil), ref(msgs[1])) {
+		c.Violation(name+": a hash obtained from the crypto.Hash registry after earlier ones were used does not start empty", fmt.Sprint(id))
 	}
 }
